@@ -259,29 +259,48 @@ def findSlot (bat : List Nat) : List (Nat × Nat × Bytes) → Except PyErr (Opt
     | .error e => .error e
     | .ok en => if en.status = 0 ∨ en.status = 2 then .ok (some (s, st)) else findSlot bat rest
 
+/-- numbers computed at the top of `writeFile` for a content of `n` bytes:
+    sectors, bytes in the last sector, blocks, sectors in the last block -/
+def layoutOf (n : Nat) : Nat × Nat × Nat × Nat :=
+  let (s, u) := if n > 0 then computeRequiredSlots n 255 else (1, 0)
+  let (b, ub) := computeRequiredSlots s 8
+  (s, u, b, ub)
+
+def reqSectors (n : Nat) : Nat := (layoutOf n).1
+def lastBytesOf (n : Nat) : Nat := (layoutOf n).2.1
+def reqBlocks (n : Nat) : Nat := (layoutOf n).2.2.1
+def lastSectorsOf (n : Nat) : Nat := (layoutOf n).2.2.2
+
+/-- `[b for b in bat if b.isFree()][:k]` as block ids -/
+def chosen (bat : List Nat) (k : Nat) : List Nat :=
+  ((List.range bat.length).filter fun i => isFree (bat.getD i 0)).take k
+
+/-- `writeFile` once the blocks are chosen: data, table, catalog entry (or table restored) -/
+def placeFile (sd : Side) (bat : List Nat) (free : List Nat) (content : Bytes) (name ext : Str) (kind flag : Nat) : WriteResult :=
+  let sd1 := writeSectors free content (reqSectors content.length) 0 sd
+  let bat' := linkChain bat free (lastSectorsOf content.length)
+  let sd2 := setBat sd1 bat'
+  let record := newRecord name ext kind flag (free.getD 0 0) (lastBytesOf content.length)
+  match findSlot bat' (slots sd2) with
+  | .error e => .raised e sd2
+  | .ok (some (s, st)) =>
+    let cat := getSector sd2 batTrack s
+    .ok (putSector sd2 batTrack s (sliceAssign cat st (st + 32) record))
+  | .ok none =>
+    let restored := free.foldl (fun b i => b.set i Gen.Disk.bsFree) bat'
+    .raised (.valueError "no.more.space.in.catalog") (setBat sd2 restored)
+
+/-- `writeFile` on a decoded table -/
+def writeFileWith (sd : Side) (bat : List Nat) (content : Bytes) (name ext : Str) (kind flag : Nat) : WriteResult :=
+  let free := chosen bat (reqBlocks content.length)
+  if free.length < reqBlocks content.length then .raised (.valueError "not.enough.blocks") sd
+  else placeFile sd bat free content name ext kind flag
+
 /-- `FileSystemController.writeFile` -/
 def writeFile (sd : Side) (content : Bytes) (name ext : Str) (kind flag : Nat) : WriteResult :=
   match getBat sd with
   | .error e => .raised e sd
-  | .ok bat =>
-    let dataLen := content.length
-    let (reqSectors, lastSector) := if dataLen > 0 then computeRequiredSlots dataLen 255 else (1, 0)
-    let (reqBlocks, lastBlock) := computeRequiredSlots reqSectors 8
-    let free := ((List.range bat.length).filter fun i => isFree (bat.getD i 0)).take reqBlocks
-    if free.length < reqBlocks then .raised (.valueError "not.enough.blocks") sd
-    else
-      let sd1 := writeSectors free content reqSectors 0 sd
-      let bat' := linkChain bat free lastBlock
-      let sd2 := setBat sd1 bat'
-      let record := newRecord name ext kind flag (free.getD 0 0) lastSector
-      match findSlot bat' (slots sd2) with
-      | .error e => .raised e sd2
-      | .ok (some (s, st)) =>
-        let cat := getSector sd2 batTrack s
-        .ok (putSector sd2 batTrack s (sliceAssign cat st (st + 32) record))
-      | .ok none =>
-        let restored := free.foldl (fun b i => b.set i Gen.Disk.bsFree) bat'
-        .raised (.valueError "no.more.space.in.catalog") (setBat sd2 restored)
+  | .ok bat => writeFileWith sd bat content name ext kind flag
 
 /-- `initFileSystem` -/
 def initFileSystem (sd : Side) : Side :=
